@@ -46,6 +46,9 @@ def funcs_returning_inside_try_finally(src):
 
 
 class Monitor:
+    f33_funcs = frozenset()     # set per module by the caller: cpdef functions that the workload also enters through their Python wrapper
+    known_f33 = 0
+
     def __init__(self, mode, basename, spans, f19_funcs=()):
         self.mode, self.basename, self.spans = mode, basename, spans
         self.f19_funcs = set(f19_funcs)
@@ -61,12 +64,20 @@ class Monitor:
 
     def _bad(self, what, **kw):
         f = kw.get("func")
-        if f in self.f19_funcs and what in ("return-without-start", "return-does-not-match-innermost-start",
-                                            "line-event-outside-its-function-activation"):
+        if what in ("return-without-start", "return-does-not-match-innermost-start", "line-event-outside-its-function-activation") and \
+                (f in self.f19_funcs or kw.get("innermost") in self.f19_funcs):
             self.known_f19 += 1
             return
-        if what == "start-without-return-at-end-of-run" and self.known_f19:
-            return      # the nesting bookkeeping is already off because of F19 events in this run
+        if what == "start-without-return-at-end-of-run" and (self.known_f19 or (set(kw.get("open") or ()) & self.f19_funcs)):
+            self.known_f19 += 1
+            return      # the nesting bookkeeping is off because of F19 events in this run (or a return event was dropped inside 'with nogil')
+        if self.f33_funcs:
+            # known finding F33: a cpdef function entered through its Python wrapper delivers its 'call' event from the wrapper's
+            # frame and its 'return' event from the C implementation's frame (none under settrace, two on an exception exit)
+            involved = {f, kw.get("innermost")} | set(kw.get("open") or ()) | {n for _, n in self.stack}
+            if self.known_f33 or (involved & set(self.f33_funcs)):
+                self.known_f33 += 1
+                return
         if len(self.problems) < 5:
             self.problems.append(dict(what=what, depth=len(self.stack), **kw))
 
@@ -92,7 +103,7 @@ class Monitor:
             sp = self.spans.get(name)
             ln = frame.f_lineno
             if not self.stack or self.stack[-1][0] != id(frame.f_code):
-                self._bad("line-event-outside-its-function-activation", func=name, line=ln)
+                self._bad("line-event-outside-its-function-activation", func=name, line=ln, innermost=self.stack[-1][1] if self.stack else None)
             elif sp and isinstance(sp[0], (list, tuple)):
                 # several functions share this name (methods of different classes): the line must lie in one of their spans
                 if not any(a <= ln <= b for a, b in sp):
@@ -157,6 +168,13 @@ class DualMonitor:
     def known_f19(self):
         return self.p.known_f19 + self.t.known_f19
 
+    @property
+    def known_f33(self):
+        return self.p.known_f33 + self.t.known_f33
+
+    def set_f33(self, names):
+        self.p.f33_funcs = self.t.f33_funcs = frozenset(names)
+
 
 class DeclineMonitor(Monitor):
     """sys.settrace with a global trace function that declines some scopes (returns None on their 'call' event, by name):
@@ -197,9 +215,11 @@ class DeclineMonitor(Monitor):
         Monitor.on(self, frame, event, arg)
 
 
-def make(mode, basename, spans, f19_funcs=()):
+def make(mode, basename, spans, f19_funcs=(), f33_funcs=()):
     if mode == "both":
-        return DualMonitor(basename, spans, f19_funcs)
-    if mode == "decline":
-        return DeclineMonitor(basename, spans, f19_funcs)
-    return Monitor(mode, basename, spans, f19_funcs)
+        m = DualMonitor(basename, spans, f19_funcs)
+        m.set_f33(f33_funcs)
+        return m
+    m = DeclineMonitor(basename, spans, f19_funcs) if mode == "decline" else Monitor(mode, basename, spans, f19_funcs)
+    m.f33_funcs = frozenset(f33_funcs)
+    return m
